@@ -102,12 +102,13 @@ func caseGen(r *mon.Rec, idx int) {
 	r.Current(replay{Stream: "gen", Idx: idx, Wire: ""})
 	r.Eval(1)
 	rp := replay{Stream: "gen", Idx: idx, Wire: ""}
-	var first []byte
+	var first, firstKept []byte
 	pan, val, st := mon.Guard(func() {
 		for k := 0; k < 4; k++ {
 			w := p.ToBytes()
 			if k == 0 {
 				first = w
+				firstKept = append([]byte{}, w...)
 				if !validate(r, rp, w, e) {
 					return
 				}
@@ -208,6 +209,12 @@ func caseGen(r *mon.Rec, idx int) {
 				rp2 := rp
 				rp2.Note = "re-encoded after its owner changed it"
 				if !validate(r, rp2, p.ToBytes(), e) {
+					return
+				}
+				// the bytes of the FIRST encoding are the caller's (sent, queued for retransmission, logged): they are what
+				// they were although the packet has been changed and encoded again
+				if !bytes.Equal(first, firstKept) {
+					r.Violate("C07:earlier-encoding-overwritten", "the bytes returned by the first ToBytes changed when the packet was modified and encoded again", rp2)
 					return
 				}
 			}
